@@ -433,9 +433,7 @@ func (r *Reader) traverseNodeFiltered(n *html.Node, ctx *parseContext, elements 
 				}
 			}
 			// If it's a block container (div with children), traverse children
-			for c := n.FirstChild; c != nil; c = c.NextSibling {
-				r.traverseNodeFiltered(c, ctx, elements)
-			}
+			r.traverseChildren(n, ctx, elements)
 			return
 
 		case "ul", "ol":
@@ -542,10 +540,13 @@ func (r *Reader) traverseNodeFiltered(n *html.Node, ctx *parseContext, elements 
 			return
 
 		case "a":
-			// Links are handled inline in text extraction
-			for c := n.FirstChild; c != nil; c = c.NextSibling {
-				r.traverseNodeFiltered(c, ctx, elements)
-			}
+			// Links are handled inline in text extraction; one that gets here
+			// wraps block content
+			r.traverseChildren(n, ctx, elements)
+			return
+
+		case "head":
+			// Reached only when the document has no body (a frameset page)
 			return
 
 		case "br":
@@ -558,17 +559,82 @@ func (r *Reader) traverseNodeFiltered(n *html.Node, ctx *parseContext, elements 
 
 		case "article", "section", "main", "header", "footer", "nav", "aside":
 			// Semantic containers - traverse children (exclusion already checked above)
-			for c := n.FirstChild; c != nil; c = c.NextSibling {
-				r.traverseNodeFiltered(c, ctx, elements)
-			}
+			r.traverseChildren(n, ctx, elements)
 			return
 		}
 	}
 
 	// Default: traverse children
-	for c := n.FirstChild; c != nil; c = c.NextSibling {
-		r.traverseNodeFiltered(c, ctx, elements)
+	r.traverseChildren(n, ctx, elements)
+}
+
+// traverseChildren processes the children of a container. Text and inline
+// elements that stand directly in the container, next to its block children,
+// form a paragraph of their own for every uninterrupted run (the anonymous
+// blocks of the HTML rendering model); without this the text of
+// <div>Intro<ul>...</ul>closing words</div> outside the list would be lost.
+func (r *Reader) traverseChildren(n *html.Node, ctx *parseContext, elements *[]parsedElement) {
+	var run strings.Builder
+	flush := func() {
+		text := strings.TrimSpace(run.String())
+		run.Reset()
+		if text == "" {
+			return
+		}
+		if ctx.inList {
+			// Loose text inside a list: an item of that list
+			ctx.listItems = append(ctx.listItems, listItem{
+				Text:    text,
+				Level:   ctx.listLevel,
+				Ordered: ctx.listOrdered,
+			})
+			return
+		}
+		*elements = append(*elements, parsedElement{
+			Type: ElementParagraph,
+			Text: text,
+		})
 	}
+	for c := n.FirstChild; c != nil; c = c.NextSibling {
+		switch {
+		case c.Type == html.TextNode:
+			run.WriteString(c.Data)
+		case c.Type != html.ElementNode || shouldSkipElement(c.Data):
+			// Comments, scripts and the like neither add text nor end a run
+		case isInlineContent(c):
+			if ctx.checker == nil || !ctx.checker.shouldExclude(c) {
+				getTextContentRecursive(c, ctx.checker, &run)
+			}
+		default:
+			flush()
+			r.traverseNodeFiltered(c, ctx, elements)
+		}
+	}
+	flush()
+}
+
+// inlineElements are the phrasing elements whose text belongs to the
+// paragraph around them. code is not among them: on its own it is a code block.
+var inlineElements = map[string]bool{
+	"a": true, "abbr": true, "acronym": true, "b": true, "bdi": true, "bdo": true, "big": true, "br": true,
+	"cite": true, "data": true, "del": true, "dfn": true, "em": true, "font": true, "i": true, "img": true,
+	"ins": true, "kbd": true, "label": true, "mark": true, "q": true, "rp": true, "rt": true, "ruby": true,
+	"s": true, "samp": true, "small": true, "span": true, "strike": true, "strong": true, "sub": true,
+	"sup": true, "time": true, "tt": true, "u": true, "var": true, "wbr": true,
+}
+
+// isInlineContent reports whether an element is an inline element that holds
+// nothing but inline content (a link or span around blocks is a container).
+func isInlineContent(n *html.Node) bool {
+	if !inlineElements[n.Data] {
+		return false
+	}
+	for c := n.FirstChild; c != nil; c = c.NextSibling {
+		if c.Type == html.ElementNode && !isInlineContent(c) {
+			return false
+		}
+	}
+	return true
 }
 
 // parseTable extracts a table from an HTML table element.
